@@ -69,3 +69,45 @@ def no_identityless_reductions(ctx, R, roots, what, consequence, only_roots=Fals
     if not n:
         ctx.ok(R, roots[0].loc(), what, "%d function(s) inspected" % len(reach))
     return n
+
+
+_LAYOUT_ATTRS = {"flags", "strides", "c_contiguous", "f_contiguous", "contiguous", "fnc", "forc", "owndata", "writeable", "aligned", "base"}
+_LAYOUT_CALLS = {"iscontiguous", "isfortran", "is_contiguous", "may_share_memory", "shares_memory"}
+
+
+def layout_independent(ctx, R, roots, what="whether an array is accepted does not depend on how it lies in memory"):
+    """A strided view (one channel of a stereo buffer, every other sample), a Fortran-ordered or read-only array holds the same
+    values as its contiguous copy; "for every signal" covers them.  A raise or assertion conditioned on ``.flags``, ``.strides``,
+    ``.base`` or a contiguity predicate rejects inputs by their memory layout, not by their value."""
+    prog = ctx.prog
+    reach = closure(prog, roots)
+    n = 0
+
+    def layout_test(test):
+        for x in ast.walk(test):
+            if isinstance(x, ast.Attribute) and x.attr in _LAYOUT_ATTRS and not (isinstance(x.value, ast.Name) and x.value.id in ("self", "cls")):
+                return astq.text(x)
+            if isinstance(x, ast.Call) and ((isinstance(x.func, ast.Attribute) and x.func.attr in _LAYOUT_CALLS) or (isinstance(x.func, ast.Name) and x.func.id in _LAYOUT_CALLS)):
+                return astq.text(x)
+            if isinstance(x, ast.Subscript) and isinstance(x.value, ast.Attribute) and x.value.attr == "flags":
+                return astq.text(x)
+        return None
+    for g in reach:
+        pm = astq.parents(g)
+        for st in g.body_nodes():
+            hit = None
+            if isinstance(st, ast.Assert):
+                hit = layout_test(st.test)
+            elif isinstance(st, ast.Raise):
+                for a in astq.ancestors(pm, st):
+                    if isinstance(a, (ast.If, ast.While)):
+                        hit = hit or layout_test(a.test)
+                    if isinstance(a, (ast.FunctionDef, ast.AsyncFunctionDef)):
+                        break
+            if hit:
+                n += 1
+                ctx.bad(R, g, st, "input is refused depending on `%s`: a strided view (one channel of a multi-channel buffer, a decimated signal) or a "
+                        "non-contiguous array holds a perfectly valid signal and is now rejected" % hit[:60], what, robust=True)
+    if not n:
+        ctx.ok(R, roots[0].loc(), what, "%d function(s) inspected" % len(reach))
+    return n
